@@ -210,10 +210,10 @@ def case_of(row):
         if who == "obj":
             case["dev"] = [["obj", k, alt]]
         else:
-            nl = [j for j, c in enumerate(case["cons"]) if c["kind"] == "nl"]
+            nl = [c for c in case["cons"] if c["kind"] == "nl"]
             if nl:
-                j = nl[-1]
-                comp = (k % len(case["cons"][j]["funs"]))
+                j = len(nl) - 1  # the functions of the nonlinear constraints are numbered among themselves
+                comp = (k % len(nl[j]["funs"]))
                 case["dev"] = [[f"con{j}", k, [alt, comp]]]
     apply_scales(case, f["xscale"], f["fscale"], f["cscale"], f["foffset"])
     case["tag"]["cover"] = {k: (v if not isinstance(v, float) else float(v)) for k, v in f.items()}
